@@ -2,6 +2,7 @@
    For every case prints `case id`, the model's `obs` lines, `spec` lines (the extracted spec
    predicates evaluated on the IMPLEMENTATION's observations), `end`. *)
 open Model
+type string = Stdlib.String.t
 open Util
 
 
